@@ -51,7 +51,10 @@ type Scenario struct {
 	Params   map[string]any
 	Bounds   Bounds
 	MapOrder bool
-	New      func() *Instance
+	// POR runs the scenario in fine-grained mode (every synchronisation operation is its own transition)
+	// with sleep-set partial-order reduction; only meaningful with unbounded budgets.
+	POR bool
+	New func() *Instance
 	// Seq marks a non-scheduler scenario (bounded-exhaustive input enumeration); Run is used instead of New.
 	Seq func(r *SeqRun)
 	// MemLimitMB asks the driver to run the job under an address-space limit.
@@ -92,6 +95,8 @@ type Result struct {
 	RuleHits    map[string]int `json:"rule_hits,omitempty"`
 	Violations  []Violation    `json:"violations,omitempty"`
 	Sample      any            `json:"sample,omitempty"`
+	SleepBlocked int           `json:"sleep_blocked,omitempty"` // POR: runs cut because every enabled thread was asleep (redundant reorderings; not counted as executions)
+	POR         bool           `json:"por,omitempty"`
 	Replayed    int            `json:"replayed"` // executions re-run for the determinism check
 	EngineError string         `json:"engine_error,omitempty"`
 	WallS       float64        `json:"wall_s"`
@@ -173,12 +178,16 @@ type explorer struct {
 	maxViol   int
 	violKeys  map[string]bool
 	stopAfter bool
+	fine      bool // fine-grained transitions without reduction (used to validate the reduction)
+	keys      map[string]bool
 }
 
 func (e *explorer) runOnce(prefix []int) (*vs.Exec, *Instance) {
 	inst := e.sc.New()
 	vs.MapOrderChoices = e.sc.MapOrder
+	vs.POR, vs.Fine = e.sc.POR, e.sc.POR || e.fine
 	x := vs.Run(prefix, inst.Body)
+	vs.POR, vs.Fine = false, false
 	return x, inst
 }
 
@@ -210,7 +219,6 @@ func (e *explorer) explore(prefix []int) {
 		return
 	}
 	x, inst := e.runOnce(prefix)
-	e.res.Execs++
 	e.res.Steps += x.Steps
 	e.res.Nodes += len(x.Points) - len(prefix)
 	if len(x.Points) > e.res.MaxPoints {
@@ -220,11 +228,21 @@ func (e *explorer) explore(prefix []int) {
 		e.res.EngineError = fmt.Sprintf("%s (choices %v)", x.Detail, x.Choices())
 		return
 	}
+	if x.Outcome == "sleep-blocked" {
+		// a redundant reordering: nothing to judge, but the nodes on the way still have unexplored alternatives
+		e.res.SleepBlocked++
+		e.branch(x, prefix)
+		return
+	}
+	e.res.Execs++
 	var key string
 	if inst.Outcome != nil {
 		key = inst.Outcome(x)
 	} else {
 		key = canonical(x)
+	}
+	if e.keys != nil {
+		e.keys[key] = true
 	}
 	h := hash(key)
 	if !e.outcomes[h] {
@@ -270,6 +288,10 @@ func (e *explorer) explore(prefix []int) {
 	if e.res.Sample == nil || (e.res.Execs == 7) {
 		e.res.Sample = map[string]any{"choices": x.Choices(), "outcome": x.Outcome, "log": logStrings(x)}
 	}
+	e.branch(x, prefix)
+}
+
+func (e *explorer) branch(x *vs.Exec, prefix []int) {
 	b := e.sc.Bounds
 	for i := len(prefix); i < len(x.Points); i++ {
 		pt := x.Points[i]
@@ -334,6 +356,7 @@ func exploreScenario(prop string, sc *Scenario, budget time.Duration) *Result {
 		res.Nontrivial = keys(r.nontriv)
 	} else {
 		e := &explorer{sc: sc, prop: prop, res: res, outcomes: map[string]bool{}, nontriv: map[string]bool{}, maxViol: 5, violKeys: map[string]bool{}}
+		res.POR = sc.POR
 		if budget > 0 {
 			e.deadline = t0.Add(budget)
 		}
